@@ -21,5 +21,5 @@ Step(e) ==
     \/ e.op = "sync"   /\ mustfire = "" /\ ~Overdue /\ pend = SeqToSet(e.pend) /\ UNCHANGED vars
 TNext == l <= Len(Ev) /\ Step(Ev[l]) /\ l' = l + 1 /\ UNCHANGED tid
 TSpec == TInit /\ [][TNext]_tvars
-Reporter == Report(tid, l, Len(Ev))
+Reporter == TraceReport(tid, l, Len(Ev))
 =============================================================================
